@@ -40,6 +40,18 @@
 #define V_INPUT(T) T nondet_##T(void);
 #endif
 
+/* Control-only units (-DVERIF_CTL): the same contract text minus the buffer/list well-formedness
+ * clauses.  Such a unit proves the control and ghost-accounting postconditions of a function for an
+ * ARBITRARY index list (no list shape is assumed at all); the well-formedness preconditions of the
+ * callees it uses are discharged in the companion memory-safety unit of the same function. */
+#ifdef VERIF_CTL
+#define V_REQUIRES_WF(x)
+#define V_ENSURES_WF(x)
+#else
+#define V_REQUIRES_WF(x) V_REQUIRES(x)
+#define V_ENSURES_WF(x) V_ENSURES(x)
+#endif
+
 #ifdef VERIF_LEAKY_CALLEES
 /* used as an ASSUMPTION inside a loop: the callee's free() of the old buffer is not modelled (the
  * old buffer is leaked in the model; callers under contract never keep an alias to it) */
